@@ -570,6 +570,8 @@ func (s *Sim) execBlock(rc *runCtx, it workItem) []workItem {
 					} else {
 						delete(st.vals, x)
 					}
+				} else if g, ok := x.X.(*ssa.Global); ok && s.sentinelError(g) {
+					st.vals[x] = AV{K: avNonNil}
 				} else {
 					delete(st.vals, x)
 				}
@@ -1280,3 +1282,51 @@ func (s *Sim) findNoProgressCycles(rc *runCtx) {
 }
 
 func constString(s string) constant.Value { return constant.MakeString(s) }
+
+// sentinelError reports whether g is a package-level error variable that is assigned
+// exactly once, in its package initialiser, from errors.New / fmt.Errorf or a non-nil
+// concrete value (a sentinel such as proxycore.Closed): loading it yields a non-nil error.
+func (s *Sim) sentinelError(g *ssa.Global) bool {
+	if v, ok := sentinelCache[g]; ok {
+		return v
+	}
+	res := false
+	defer func() { sentinelCache[g] = res }()
+	pt, ok := g.Type().(*types.Pointer)
+	if !ok {
+		return false
+	}
+	if _, isIface := pt.Elem().Underlying().(*types.Interface); !isIface || g.Pkg == nil {
+		return false
+	}
+	stores, nonNil := 0, 0
+	for fn := range s.p.Funcs {
+		if fn.Pkg != g.Pkg || fn.Blocks == nil {
+			continue
+		}
+		for _, b := range fn.Blocks {
+			for _, in := range b.Instrs {
+				st, ok := in.(*ssa.Store)
+				if !ok || st.Addr != ssa.Value(g) {
+					continue
+				}
+				stores++
+				if fn.Name() != "init" {
+					return false
+				}
+				switch v := st.Val.(type) {
+				case *ssa.MakeInterface:
+					nonNil++
+				case *ssa.Call:
+					if c := v.Call.StaticCallee(); c != nil && (c.String() == "errors.New" || c.String() == "fmt.Errorf") {
+						nonNil++
+					}
+				}
+			}
+		}
+	}
+	res = stores == 1 && nonNil == 1
+	return res
+}
+
+var sentinelCache = map[*ssa.Global]bool{}
